@@ -1842,6 +1842,19 @@ func (db *DB) verifyWithExecutor(ctx context.Context, exec *syncExecutor) (info 
 			return info, nil
 		}
 
+		// SQLite increments salt-1 by exactly one on every WAL restart (and
+		// picks random salts for a recreated WAL). Any other value means the
+		// WAL was restarted more than once since our last position: the
+		// generations in between were checkpointed without ever being copied,
+		// and a later generation at least as long has overwritten every trace
+		// of them in the file.
+		if salt1 != dec.Header().WALSalt1+1 {
+			info.offset = WALHeaderSize
+			info.salt1, info.salt2 = salt1, salt2
+			info.reason = "wal restarted more than once since last position, snapshotting"
+			return info, nil
+		}
+
 		info.offset = WALHeaderSize
 		info.salt1, info.salt2 = salt1, salt2
 
